@@ -27,8 +27,8 @@ VARIABLES phase,    \* "idle" | "run" | "group" | "test" | "done"
           rep,      \* reporter bookkeeping: [group, tests, failures, nodes, stdout]
           cur,      \* ghost: tests of the open group [name, file, line, ign, fails]
           printed,  \* ghost: [group |-> text printed during the open group, all |-> text printed since the run began]
-          files,    \* documents written so far
-          done,     \* ghost: for each closed group [grp, tests, printedGroup, printedAll]
+          files,    \* documents written so far, in the order of writing; `of' = index in `done' of the group it was written for
+          done,     \* ghost: for each closed group [grp, tests, printedGroup, printedAll]; tests = <<>>: none of its tests ran
           cnt
 
 vars == <<phase, runIgn, pkg, grp, rep, cur, printed, files, done, cnt>>
@@ -153,6 +153,10 @@ Failure(file, line, msg) ==
     /\ cnt' = [cnt EXCEPT !.f = @ + 1]
     /\ UNCHANGED <<phase, runIgn, pkg, grp, printed, files, done>>
 
+\* a test that the registry counts but a group / name filter keeps from running: no call reaches the reporter
+Skip == /\ phase = "group" /\ cnt' = [cnt EXCEPT !.t = @ + 1]
+        /\ UNCHANGED <<phase, runIgn, pkg, grp, rep, cur, printed, files, done>>
+
 TestEnded == /\ phase = "test" /\ phase' = "group"
              /\ UNCHANGED <<runIgn, pkg, grp, rep, cur, printed, files, done, cnt>>
 
@@ -176,9 +180,20 @@ DocOf(r, p) ==
 \* output belongs to one group or to the run so far; both policies are allowed (keep = output not forgotten).
 GroupEnded(keep) ==
     /\ phase = "group" /\ phase' = "run" /\ Len(cur) > 0
-    /\ files' = Append(files, DocOf(rep, pkg))
+    /\ files' = Append(files, DocOf(rep, pkg) @@ [of |-> Len(done) + 1])
     /\ done' = Append(done, [grp |-> grp, tests |-> cur, printedGroup |-> printed.group, printedAll |-> printed.all, pkg |-> pkg])
     /\ rep' = NoRep @@ [stdout |-> IF keep THEN rep.stdout ELSE <<>>]
+    /\ UNCHANGED <<runIgn, pkg, grp, cur, printed, cnt>>
+
+\* The registry reports start and end also for a group all of whose tests are filtered out.  The property says nothing
+\* about a report for such a group: the reporter may write none (wrote = FALSE) or flush its (empty) bookkeeping - a
+\* document that is not the report of any group.  Because the bookkeeping was forgotten when the previous group ended,
+\* that document carries no group name and cannot land on the file of a group that ran (NoOverwrite below).
+EmptyGroupEnded(wrote, keep) ==
+    /\ phase = "group" /\ phase' = "run" /\ Len(cur) = 0 /\ cnt.t > 0
+    /\ files' = IF wrote THEN Append(files, DocOf(rep, pkg) @@ [of |-> Len(done) + 1]) ELSE files
+    /\ done' = Append(done, [grp |-> grp, tests |-> <<>>, printedGroup |-> printed.group, printedAll |-> printed.all, pkg |-> pkg])
+    /\ rep' = IF wrote THEN NoRep @@ [stdout |-> IF keep THEN rep.stdout ELSE <<>>] ELSE rep
     /\ UNCHANGED <<runIgn, pkg, grp, cur, printed, cnt>>
 
 TestsEnded == /\ phase = "run" /\ phase' = "done"
@@ -189,25 +204,35 @@ Next == \/ \E ri \in BOOLEAN, p \in Pkgs : TestsStarted(ri, p)
         \/ \E n \in Names, f \in Files, l \in LineNos, k \in {"n", "i"} : cnt.t < MaxTests /\ TestStarted(n, f, l, k)
         \/ \E x \in Texts : cnt.p < MaxPrints /\ PrintText(x)
         \/ \E f \in Files, l \in LineNos, m \in Msgs : cnt.f < MaxFails /\ Failure(f, l, m)
+        \/ cnt.t < MaxTests /\ Skip
         \/ TestEnded \/ TestsEnded
         \/ \E keep \in BOOLEAN : GroupEnded(keep)
+        \/ \E wrote, keep \in BOOLEAN : EmptyGroupEnded(wrote, keep)
 
 Spec == Init /\ [][Next]_vars
 
 -----------------------------------------------------------------------------
-\* Properties (C16): the i-th document against what really happened in the i-th group
+\* Properties (C16).  Every document written (files[i]) belongs to the group done[files[i].of]; a group RAN when at
+\* least one of its tests ran.  For a group that ran, the document is compared with what really happened in the group.
 
-OneFilePerGroup == Len(files) = Len(done)
+Ran(k) == done[k].tests # <<>>
+For(i) == done[files[i].of]
+RanDoc(i) == Ran(files[i].of)
+Lo(k) == IF k < 1 THEN 1 ELSE k
+\* (the ...From(k) forms look at the documents / groups from position k on; the property is the form From(1))
+
+\* a group that ran produces exactly one document; nothing is asked for a group none of whose tests ran
+OneFilePerGroupFrom(k) == \A g \in Lo(k)..Len(done) :
+    LET n == Cardinality({ i \in 1..Len(files) : files[i].of = g }) IN IF Ran(g) THEN n = 1 ELSE n <= 1
+OneFilePerGroup == OneFilePerGroupFrom(1)
 
 Failed(t) == t.fails # <<>>
 NFailed(ts) == Cardinality({ i \in 1..Len(ts) : Failed(ts[i]) })
 
-\* (the ...From(k) forms look at the documents from position k on; the property is the form From(1))
-Lo(k) == IF k < 1 THEN 1 ELSE k
-SuiteCountsTrueFrom(k) == \A i \in Lo(k)..Len(files) :
-    /\ files[i].suite.name = done[i].grp
-    /\ files[i].suite.tests = Len(done[i].tests)
-    /\ files[i].suite.failures = NFailed(done[i].tests)
+SuiteCountsTrueFrom(k) == \A i \in Lo(k)..Len(files) : RanDoc(i) =>
+    /\ files[i].suite.name = For(i).grp
+    /\ files[i].suite.tests = Len(For(i).tests)
+    /\ files[i].suite.failures = NFailed(For(i).tests)
 SuiteCountsTrue == SuiteCountsTrueFrom(1)
 
 \* one test case element per test, in run order, with name, file and line; skipped exactly for ignored tests,
@@ -217,22 +242,35 @@ CaseOK(c, t) ==
     /\ c.skipped <=> t.ign
     /\ c.failed <=> Failed(t)
     /\ c.failed => \E j \in 1..Len(t.fails) : EndsWith(c.message, t.fails[j].msg)
-CasesFaithfulFrom(k) == \A i \in Lo(k)..Len(files) :
-    /\ Len(files[i].cases) = Len(done[i].tests)
-    /\ \A n \in 1..Len(files[i].cases) : CaseOK(files[i].cases[n], done[i].tests[n])
+CasesFaithfulFrom(k) == \A i \in Lo(k)..Len(files) : RanDoc(i) =>
+    /\ Len(files[i].cases) = Len(For(i).tests)
+    /\ \A n \in 1..Len(files[i].cases) : CaseOK(files[i].cases[n], For(i).tests[n])
 CasesFaithful == CasesFaithfulFrom(1)
 
 SysoutOK(text, d) == text = d.printedGroup \/ text = d.printedAll
-OutputFaithfulFrom(k) == \A i \in Lo(k)..Len(files) : SysoutOK(files[i].sysout, done[i])
+OutputFaithfulFrom(k) == \A i \in Lo(k)..Len(files) : RanDoc(i) => SysoutOK(files[i].sysout, For(i))
 OutputFaithful == OutputFaithfulFrom(1)
 
-\* every string is written so that a conforming parser accepts it and reads back the original
+\* every string is written so that a conforming parser accepts it and reads back the original (every file, also one
+\* written for a group that did not run, must stay well-formed)
 WellFormedRoundTripFrom(k) == \A i \in Lo(k)..Len(files) : \A n \in 1..Len(files[i].wire) :
     LET e == files[i].wire[n] IN XmlSafe(e.ctx, e.w) /\ XmlDec(e.ctx, e.w) = e.orig
 WellFormedRoundTrip == WellFormedRoundTripFrom(1)
 
-FileNamesOKFrom(k) == \A i \in Lo(k)..Len(files) : FileNameOK(files[i].fname, done[i].pkg, done[i].grp)
+FileNamesOKFrom(k) == \A i \in Lo(k)..Len(files) : RanDoc(i) => FileNameOK(files[i].fname, For(i).pkg, For(i).grp)
 FileNamesOK == FileNamesOKFrom(1)
+
+\* whatever is written for a group that did not run must not go to (a name of) the file of a group that ran before it:
+\* it would replace that group's report
+NoOverwriteFrom(k) == \A j \in Lo(k)..Len(files) : ~RanDoc(j) =>
+    \A g \in 1..(files[j].of - 1) : Ran(g) => ~FileNameOK(files[j].fname, done[g].pkg, done[g].grp)
+NoOverwrite == NoOverwriteFrom(1)
+
+\* the property in terms of the file system after the run: for every group that ran, the LAST content written under
+\* the name of its file is the report of a group that ran (faithful by the clauses above), not a left-over
+LastContentFaithful == \A i \in 1..Len(files) : RanDoc(i) =>
+    LET same == { j \in i..Len(files) : files[j].fname = files[i].fname }
+        last == CHOOSE j \in same : \A m \in same : m <= j IN RanDoc(last)
 
 \* the reporter's bookkeeping for the open group agrees with what happened
 BookkeepingOK ==
